@@ -61,7 +61,10 @@ class LinkPair:
         crc = 2 if (self.tx_lite or self.rx_lite) else c.get("crc", 2)
         if crc == 0 and (c.get("aa0", True) or True):
             crc = 1 if self.tchip.crc_len() == 1 else self.tchip.crc_len()
-        return dict(dyn=bool(c.get("dyn", True)), pl=c.get("pl", 32), rxdyn=bool(c.get("dyn", True)), rxpl=c.get("pl", 32),
+        # ack=True switches dynamic payloads on for pipe 0 (which also governs what the PTX transmits): with a static
+        # configuration established first, the link over pipe 0 is a dynamic-payload link
+        dyn = bool(c.get("dyn", True)) or bool(c.get("ackpl") and c.get("pipe", 1) == 0 and not (self.tx_lite or self.rx_lite))
+        return dict(dyn=dyn, pl=c.get("pl", 32), rxdyn=dyn, rxpl=c.get("pl", 32),
                     rxpipe=c.get("pipe", 1), aw=c.get("aw", 5), arc=c.get("arc", 15), ard=c.get("ard", 1500),
                     crc=self.tchip.crc_len(), kbps={1: 1000, 2: 2000, 250: 250}[c.get("rate", 1)],
                     ackpl=bool(c.get("ackpl")), lite_tx=self.tx_lite, lite_rx=self.rx_lite, aa0=bool(c.get("aa0", True)))
@@ -139,6 +142,32 @@ class LinkPair:
                 ev["buf_after"] = list(bytes(buf))
                 ev["same_obj"] = len(buf) == len(before)
         return ev
+
+    def stream(self, bufs, ask_no_ack=False):
+        """the examples' streaming idiom: queue payloads with write(write_only=True) while CE is low, then raise CE"""
+        n0 = len(self.air.log)
+        self.s.deadline = self.s.now + 3_000_000_000
+        exc, rets = "none", []
+        try:
+            self.tx.ce_pin = False
+            for b in bufs:
+                rets.append(bool(self.tx.write(b, ask_no_ack=ask_no_ack, write_only=True)))
+            self.tx.ce_pin = True
+        except sim.WatchdogExpired:
+            exc = "Hang"
+        except Exception as e:  # noqa
+            exc = type(e).__name__
+        self.s.deadline = None
+        if exc != "Hang":
+            self.settle()
+        try:
+            self.tx.ce_pin = False
+            self.tx.flush_tx()
+            self.tx.clear_status_flags()
+        except Exception:  # noqa
+            pass
+        return dict(k="stream", bufs=[list(b) for b in bufs], rets=rets, exc=exc, ask_no_ack=bool(ask_no_ack),
+                    air=self._air_since(n0))
 
     def drain(self, limit=8):
         got = []
